@@ -20,7 +20,7 @@ theorem pack_I_ofLE (x : Bytes) (h : x.length = 4) : Py.pack "<I" (ofLE x : Nat)
   have hlt := ofLE_lt x
   rw [h] at hlt
   have : 0 ≤ ((ofLE x : Nat) : Int) ∧ ((ofLE x : Nat) : Int).toNat < 256 ^ 4 := by omega
-  simp only [this, and_self, if_true, Int.toNat_natCast]
+  rw [if_pos this, Int.toNat_natCast]
   have := leBytes_ofLE x
   rw [h] at this
   rw [this]
@@ -29,7 +29,7 @@ theorem pack_I_nat (v : Nat) (h : v < 2 ^ 32) : Py.pack "<I" (v : Int) = .ok (le
   rw [pack_I]
   unfold packU
   have : 0 ≤ (v : Int) ∧ (v : Int).toNat < 256 ^ 4 := by omega
-  simp only [this, and_self, if_true, Int.toNat_natCast]
+  rw [if_pos this, Int.toNat_natCast]
 
 /-- an 80-byte string is the concatenation of its six header fields -/
 theorem split80 (b : Bytes) (h : b.length = 80) :
@@ -55,9 +55,8 @@ theorem split80 (b : Bytes) (h : b.length = 80) :
   rw [← e6, ← e5, ← e4, ← e3, ← e2, ← e1]
 
 theorem header_parse_ok (b : Bytes) (h : b.length = 80) :
-    Header.parse b = .ok { version := ofLE (b.take 4), prev := ((b.drop 4).take 32).reverse,
-             merkle := ((b.drop 36).take 32).reverse, time := ofLE ((b.drop 68).take 4),
-             bits := ofLE ((b.drop 72).take 4), nonce := ofLE ((b.drop 76).take 4) } := by
+    Header.parse b = .ok ⟨ofLE (b.take 4), ((b.drop 4).take 32).reverse, ((b.drop 36).take 32).reverse,
+      ofLE ((b.drop 68).take 4), ofLE ((b.drop 72).take 4), ofLE ((b.drop 76).take 4)⟩ := by
   unfold Header.parse
   simp only [h, ne_eq, not_true_eq_false, if_false]
 
@@ -70,5 +69,319 @@ theorem header_serialize_parse (b : Bytes) (h : b.length = 80) :
     pack_I_ofLE _ (by simp [h])]
   simp only [bind, Except.bind, pure, Except.pure, List.reverse_reverse]
   rw [← split80 b h]
+
+/-! ### the offset-walking scanner -/
+
+theorem drop_step {data : Bytes} {off : Nat} {a post : Bytes} (h : data.drop off = a ++ post) :
+    data.drop (off + a.length) = post := by
+  rw [← List.drop_drop, h, List.drop_left]
+
+theorem drop_step' {data : Bytes} {off k : Nat} {a post : Bytes} (h : data.drop off = a ++ post)
+    (hk : a.length = k) : data.drop (off + k) = post := by
+  subst hk; exact drop_step h
+
+theorem skipCS_at (data : Bytes) (off n : Nat) (post : Bytes) (hn : n < 2 ^ 64)
+    (h : data.drop off = compactSize n ++ post) :
+    skipCS data off = .ok (n, off + (compactSize n).length) := by
+  unfold skipCS
+  rw [h, C17.decode_encode n hn post]
+
+theorem scanInputs_spec (data : Bytes) (ins : List RawIn)
+    (hw : ∀ i ∈ ins, i.prevHash.length = 32 ∧ i.script.length < 2 ^ 64 ∧ i.sequence.length = 4) (off : Nat) (post : Bytes)
+    (h : data.drop off = ins.flatMap encIn ++ post) :
+    scanInputs data ins.length off = .ok (off + (ins.flatMap encIn).length) := by
+  induction ins generalizing off with
+  | nil => simp [scanInputs]
+  | cons i ins ih =>
+    obtain ⟨h32, hs, h4s⟩ := hw i (by simp)
+    simp only [List.flatMap_cons, List.append_assoc] at h
+    have h1 : data.drop off = (i.prevHash ++ leBytes 4 i.prevIndex) ++
+        (compactSize i.script.length ++ (i.script ++ i.sequence ++ (ins.flatMap encIn ++ post))) := by
+      rw [h]; simp only [encIn, withLen, List.append_assoc]
+    have h2 := drop_step' h1 (k := 36) (by simp [h32])
+    have h3 := skipCS_at data (off + 36) _ _ hs h2
+    have h4 : data.drop (off + (encIn i).length) = ins.flatMap encIn ++ post := drop_step h
+    have h5 := ih (fun j hj => hw j (by simp [hj])) _ h4
+    have e : off + 36 + (compactSize i.script.length).length + i.script.length + 4 = off + (encIn i).length := by
+      simp [encIn, withLen, h32, h4s]; omega
+    simp only [List.length_cons, scanInputs, h3, bind, Except.bind, e, h5, List.flatMap_cons, List.length_append]
+    rw [Nat.add_assoc]
+
+theorem scanOutputs_spec (data : Bytes) (outs : List RawOut)
+    (hw : ∀ o ∈ outs, o.script.length < 2 ^ 64) (off : Nat) (post : Bytes)
+    (h : data.drop off = outs.flatMap encOut ++ post) :
+    scanOutputs data outs.length off = .ok (off + (outs.flatMap encOut).length) := by
+  induction outs generalizing off with
+  | nil => simp [scanOutputs]
+  | cons o outs ih =>
+    have hs := hw o (by simp)
+    simp only [List.flatMap_cons, List.append_assoc] at h
+    have h1 : data.drop off = leBytes 8 o.value ++
+        (compactSize o.script.length ++ (o.script ++ (outs.flatMap encOut ++ post))) := by
+      rw [h]; simp only [encOut, withLen, List.append_assoc]
+    have h2 := drop_step' h1 (k := 8) (by simp)
+    have h3 := skipCS_at data (off + 8) _ _ hs h2
+    have h4 : data.drop (off + (encOut o).length) = outs.flatMap encOut ++ post := drop_step h
+    have h5 := ih (fun j hj => hw j (by simp [hj])) _ h4
+    have e : off + 8 + (compactSize o.script.length).length + o.script.length = off + (encOut o).length := by
+      simp [encOut, withLen]; omega
+    simp only [List.length_cons, scanOutputs, h3, bind, Except.bind, e, h5, List.flatMap_cons, List.length_append]
+    rw [Nat.add_assoc]
+
+theorem scanItems_spec (data : Bytes) (its : List Bytes)
+    (hw : ∀ it ∈ its, it.length < 2 ^ 64) (off : Nat) (post : Bytes)
+    (h : data.drop off = its.flatMap withLen ++ post) :
+    scanItems data its.length off = .ok (off + (its.flatMap withLen).length) := by
+  induction its generalizing off with
+  | nil => simp [scanItems]
+  | cons it its ih =>
+    have hs := hw it (by simp)
+    simp only [List.flatMap_cons, List.append_assoc] at h
+    have h1 : data.drop off = compactSize it.length ++ (it ++ (its.flatMap withLen ++ post)) := by
+      rw [h]; simp only [withLen, List.append_assoc]
+    have h3 := skipCS_at data off _ _ hs h1
+    have h4 : data.drop (off + (withLen it).length) = its.flatMap withLen ++ post := drop_step h
+    have h5 := ih (fun j hj => hw j (by simp [hj])) _ h4
+    have e : off + (compactSize it.length).length + it.length = off + (withLen it).length := by
+      simp [withLen]; omega
+    simp only [List.length_cons, scanItems, h3, bind, Except.bind, e, h5, List.flatMap_cons, List.length_append]
+    rw [Nat.add_assoc]
+
+theorem scanStacks_spec (data : Bytes) (sts : List (List Bytes))
+    (hw : ∀ st ∈ sts, st.length < 2 ^ 64 ∧ ∀ it ∈ st, it.length < 2 ^ 64) (off : Nat) (post : Bytes)
+    (h : data.drop off = sts.flatMap encStack ++ post) :
+    scanStacks data sts.length off = .ok (off + (sts.flatMap encStack).length) := by
+  induction sts generalizing off with
+  | nil => simp [scanStacks]
+  | cons st sts ih =>
+    obtain ⟨hs, hi⟩ := hw st (by simp)
+    simp only [List.flatMap_cons, List.append_assoc] at h
+    have h1 : data.drop off = compactSize st.length ++ (st.flatMap withLen ++ (sts.flatMap encStack ++ post)) := by
+      rw [h]; simp only [encStack, List.append_assoc]
+    have h3 := skipCS_at data off _ _ hs h1
+    have h2 := scanItems_spec data st hi _ _ (drop_step h1)
+    have h4 : data.drop (off + (encStack st).length) = sts.flatMap encStack ++ post := drop_step h
+    have h5 := ih (fun j hj => hw j (by simp [hj])) _ h4
+    have e : off + (compactSize st.length).length + (st.flatMap withLen).length = off + (encStack st).length := by
+      simp only [encStack, List.length_append]; omega
+    simp only [List.length_cons, scanStacks, h3, h2, bind, Except.bind, e, h5, List.flatMap_cons, List.length_append]
+    rw [Nat.add_assoc]
+
+/-! ### `txLength` on a wire encoding -/
+
+theorem index_of_drop (data : Bytes) (k : Nat) (x : UInt8) (tl : Bytes) (h : data.drop k = x :: tl) :
+    Py.index data (k : Int) = .ok (x.toNat : Int) := by
+  have : data[k]? = some x := by
+    have := List.getElem?_drop (xs := data) (i := k) (j := 0)
+    rw [h] at this
+    simpa using this.symm
+  unfold Py.index
+  have hk : ¬ ((k : Int) < 0) := by omega
+  simp only [hk, if_false, Int.toNat_natCast, this]
+
+theorem index_of_lt (data : Bytes) (k : Nat) (h : k < data.length) :
+    ∃ y : Int, Py.index data (k : Int) = .ok y := by
+  unfold Py.index
+  have hk : ¬ ((k : Int) < 0) := by omega
+  simp only [hk, if_false, Int.toNat_natCast, List.getElem?_eq_getElem h]
+  exact ⟨_, rfl⟩
+
+theorem compactSize_cons (n : Nat) (h : 1 ≤ n) : ∃ x tl, compactSize n = x :: tl ∧ x.toNat ≠ 0 := by
+  unfold compactSize
+  by_cases h1 : n < 253
+  · refine ⟨UInt8.ofNat n, [], by simp [h1], ?_⟩
+    simp [UInt8.toNat_ofNat']; omega
+  · simp only [h1, if_false]
+    split
+    · exact ⟨_, _, rfl, by decide⟩
+    · split
+      · exact ⟨_, _, rfl, by decide⟩
+      · exact ⟨_, _, rfl, by decide⟩
+
+theorem flatMap_encIn_length_ge (ins : List RawIn) (hn1 : 1 ≤ ins.length)
+    (hins : ∀ i ∈ ins, i.prevHash.length = 32 ∧ i.script.length < 2 ^ 64 ∧ i.sequence.length = 4) :
+    32 ≤ (ins.flatMap encIn).length := by
+  cases ins with
+  | nil => simp at hn1
+  | cons i l =>
+    have := (hins i (by simp)).1
+    simp only [List.flatMap_cons, List.length_append, encIn]
+    omega
+
+theorem txLength_encodeTx (r : RawTx) (seg : Bool) (rest : Bytes)
+    (hv : r.version.length = 4) (hl : r.locktime.length = 4)
+    (hn1 : 1 ≤ r.ins.length) (hn : r.ins.length < 2 ^ 64) (hm : r.outs.length < 2 ^ 64)
+    (hins : ∀ i ∈ r.ins, i.prevHash.length = 32 ∧ i.script.length < 2 ^ 64 ∧ i.sequence.length = 4)
+    (houts : ∀ o ∈ r.outs, o.script.length < 2 ^ 64)
+    (hw : seg = true → r.wits.length = r.ins.length ∧
+      ∀ st ∈ r.wits, st.length < 2 ^ 64 ∧ ∀ it ∈ st, it.length < 2 ^ 64) :
+    txLength (encodeTx r seg ++ rest) = .ok (encodeTx r seg).length := by
+  have hI := flatMap_encIn_length_ge r.ins hn1 hins
+  cases seg with
+  | false =>
+    generalize hdata : encodeTx r false ++ rest = data
+    have hd : data = r.version ++ (compactSize r.ins.length ++ (r.ins.flatMap encIn ++
+        (compactSize r.outs.length ++ (r.outs.flatMap encOut ++ (r.locktime ++ rest))))) := by
+      rw [← hdata]; simp [encodeTx]
+    have d4 : data.drop 4 = compactSize r.ins.length ++ (r.ins.flatMap encIn ++
+        (compactSize r.outs.length ++ (r.outs.flatMap encOut ++ (r.locktime ++ rest)))) := by
+      rw [hd]; exact List.drop_left' hv
+    obtain ⟨x, tl, hx, hx0⟩ := compactSize_cons r.ins.length hn1
+    have m : Py.index data 4 = .ok (x.toNat : Int) :=
+      index_of_drop data 4 x _ (by rw [d4, hx]; rfl)
+    obtain ⟨y, f⟩ : ∃ y : Int, Py.index data 5 = .ok y :=
+      index_of_lt data 5 (by rw [hd]; simp only [List.length_append]; omega)
+    have s1 := skipCS_at data 4 _ _ hn d4
+    have d5 := drop_step d4
+    have s2 := scanInputs_spec data r.ins hins _ _ d5
+    have d6 := drop_step d5
+    have s3 := skipCS_at data _ _ _ hm d6
+    have d7 := drop_step d6
+    have s4 := scanOutputs_spec data r.outs houts _ _ d7
+    have hm0 : (((x.toNat : Int) == 0) && (y != 0)) = false := by
+      have : ((x.toNat : Int) == 0) = false := by simp; omega
+      rw [this]; rfl
+    unfold txLength
+    simp only [m, f, bind, Except.bind, hm0, Bool.false_eq_true, if_false, s1, s2, s3, s4, pure, Except.pure]
+    congr 1
+    simp only [encodeTx, Bool.false_eq_true, if_false, List.length_append, List.length_nil]
+    omega
+  | true =>
+    obtain ⟨hwl, hws⟩ := hw rfl
+    generalize hdata : encodeTx r true ++ rest = data
+    have hd : data = r.version ++ ([0, 1] ++ (compactSize r.ins.length ++ (r.ins.flatMap encIn ++
+        (compactSize r.outs.length ++ (r.outs.flatMap encOut ++ (r.wits.flatMap encStack ++
+          (r.locktime ++ rest))))))) := by
+      rw [← hdata]; simp [encodeTx]
+    have d4 : data.drop 4 = [0, 1] ++ (compactSize r.ins.length ++ (r.ins.flatMap encIn ++
+        (compactSize r.outs.length ++ (r.outs.flatMap encOut ++ (r.wits.flatMap encStack ++
+          (r.locktime ++ rest)))))) := by
+      rw [hd]; exact List.drop_left' hv
+    have m : Py.index data 4 = .ok (((0 : UInt8).toNat : Nat) : Int) :=
+      index_of_drop data 4 0 _ (by rw [d4]; rfl)
+    have d5' : data.drop (4 + 1) = [1] ++ (compactSize r.ins.length ++ (r.ins.flatMap encIn ++
+        (compactSize r.outs.length ++ (r.outs.flatMap encOut ++ (r.wits.flatMap encStack ++
+          (r.locktime ++ rest)))))) :=
+      drop_step' (a := [0]) (by rw [d4]; rfl) rfl
+    have f : Py.index data 5 = .ok (((1 : UInt8).toNat : Nat) : Int) :=
+      index_of_drop data 5 1 _ (by rw [d5']; rfl)
+    have d6' : data.drop 6 = compactSize r.ins.length ++ (r.ins.flatMap encIn ++
+        (compactSize r.outs.length ++ (r.outs.flatMap encOut ++ (r.wits.flatMap encStack ++
+          (r.locktime ++ rest))))) :=
+      drop_step' (off := 4) (k := 2) d4 rfl
+    have s1 := skipCS_at data 6 _ _ hn d6'
+    have d5 := drop_step d6'
+    have s2 := scanInputs_spec data r.ins hins _ _ d5
+    have d6 := drop_step d5
+    have s3 := skipCS_at data _ _ _ hm d6
+    have d7 := drop_step d6
+    have s4 := scanOutputs_spec data r.outs houts _ _ d7
+    have d8 := drop_step d7
+    have s5 := scanStacks_spec data r.wits hws _ _ d8
+    rw [hwl] at s5
+    have hm0 : ((((0 : UInt8).toNat : Nat) : Int) == 0 && (((1 : UInt8).toNat : Nat) : Int) != 0) = true := by
+      decide
+    unfold txLength
+    simp only [m, f, bind, Except.bind, hm0, if_true, s1, s2, s3, s4, s5, pure, Except.pure]
+    congr 1
+    simp only [encodeTx, if_true, List.length_append, List.length_cons, List.length_nil]
+    omega
+
+/-! ### `mapM` in `Except` -/
+
+theorem mapM_ok_elim {α β : Type} (f : α → Except PyErr β) (xs : List α) (ys : List β)
+    (h : xs.mapM f = .ok ys) : ys.length = xs.length ∧ ∀ y ∈ ys, ∃ x ∈ xs, f x = .ok y := by
+  induction xs generalizing ys with
+  | nil =>
+    simp only [List.mapM_nil, pure, Except.pure] at h
+    obtain rfl := Except.ok.inj h
+    simp
+  | cons x xs ih =>
+    rw [List.mapM_cons] at h
+    cases hx : f x with
+    | error e => simp [hx, bind, Except.bind] at h
+    | ok b =>
+      cases hr : xs.mapM f with
+      | error e => simp [hx, hr, bind, Except.bind] at h
+      | ok bs =>
+        simp only [hx, hr, bind, Except.bind, pure, Except.pure] at h
+        obtain rfl := Except.ok.inj h
+        obtain ⟨l, m⟩ := ih bs hr
+        refine ⟨by simp [l], ?_⟩
+        intro y hy
+        rcases List.mem_cons.mp hy with rfl | hy
+        · exact ⟨x, by simp, hx⟩
+        · obtain ⟨x', hx', e⟩ := m y hy
+          exact ⟨x', by simp [hx'], e⟩
+
+theorem mapM_ok_of_forall {α β : Type} (f : α → Except PyErr β) (xs : List α)
+    (h : ∀ x ∈ xs, ∃ y, f x = .ok y) : ∃ ys, xs.mapM f = .ok ys := by
+  induction xs with
+  | nil => exact ⟨[], rfl⟩
+  | cons x xs ih =>
+    obtain ⟨y, hy⟩ := h x (by simp)
+    obtain ⟨ys, hys⟩ := ih (fun z hz => h z (by simp [hz]))
+    refine ⟨y :: ys, ?_⟩
+    rw [List.mapM_cons]
+    simp only [hy, hys, bind, Except.bind, pure, Except.pure]
+
+/-! ### the block -/
+
+theorem blockTxs_spec (T : Tables) (data : Bytes) (encs : List Bytes)
+    (hlen : ∀ e ∈ encs, ∀ rest, txLength (e ++ rest) = .ok e.length)
+    (parsed : List Tx) (hp : encs.mapM (Tx.parse T) = .ok parsed) (off : Nat) (post : Bytes)
+    (h : data.drop off = encs.flatten ++ post) :
+    blockTxs T data encs.length off = parsed := by
+  induction encs generalizing off parsed with
+  | nil =>
+    simp only [List.mapM_nil, pure, Except.pure] at hp
+    obtain rfl := Except.ok.inj hp
+    simp [blockTxs]
+  | cons e es ih =>
+    rw [List.mapM_cons] at hp
+    cases hx : Tx.parse T e with
+    | error err => simp [hx, bind, Except.bind] at hp
+    | ok t =>
+      cases hr : es.mapM (Tx.parse T) with
+      | error err => simp [hx, hr, bind, Except.bind] at hp
+      | ok ts =>
+        simp only [hx, hr, bind, Except.bind, pure, Except.pure] at hp
+        obtain rfl := Except.ok.inj hp
+        simp only [List.flatten_cons, List.append_assoc] at h
+        have h1 := hlen e (by simp) (es.flatten ++ post)
+        have h2 := ih (fun e' he' => hlen e' (by simp [he'])) ts hr _ (drop_step h)
+        simp only [List.length_cons, blockTxs, h, h1, List.take_left' rfl, hx, h2]
+
+theorem block_parse_frame (T : Tables) (magic header : Bytes) (size : Nat) (encs : List Bytes)
+    (hm : magic.length = 4) (hh : header.length = 80) (hs : size < 2 ^ 32) (hn : encs.length < 2 ^ 64)
+    (hd : Header) (hhd : Header.parse header = .ok hd)
+    (hlen : ∀ e ∈ encs, ∀ rest, txLength (e ++ rest) = .ok e.length)
+    (parsed : List Tx) (hp : encs.mapM (Tx.parse T) = .ok parsed) :
+    Block.parse T (frameBlock magic size header encs) =
+      .ok { magic := magic, size := size, header := hd, count := encs.length, txs := parsed } := by
+  generalize hdata : frameBlock magic size header encs = data
+  have hd0 : data = magic ++ (leBytes 4 size ++ (header ++ (compactSize encs.length ++ encs.flatten))) := by
+    rw [← hdata]; simp [frameBlock]
+  have t4 : data.take 4 = magic := by rw [hd0]; exact List.take_left' hm
+  have d4 : data.drop 4 = leBytes 4 size ++ (header ++ (compactSize encs.length ++ encs.flatten)) := by
+    rw [hd0]; exact List.drop_left' hm
+  have d8 : data.drop (4 + 4) = header ++ (compactSize encs.length ++ encs.flatten) :=
+    drop_step' d4 (by simp)
+  have d88 : data.drop (4 + 4 + 80) = compactSize encs.length ++ (encs.flatten ++ []) := by
+    rw [List.append_nil]; exact drop_step' d8 hh
+  have e1 : Py.slice data 4 8 = leBytes 4 size := by
+    have : Py.slice data 4 8 = (data.drop 4).take 4 := rfl
+    rw [this, d4]; exact List.take_left' (by simp)
+  have e2 : Py.slice data 8 88 = header := by
+    have : Py.slice data 8 88 = (data.drop (4 + 4)).take 80 := rfl
+    rw [this, d8]; exact List.take_left' hh
+  have e3 : Py.unpack1 "<I" (leBytes 4 size) = .ok (size : Int) := by
+    rw [unpack1_I]
+    unfold unpackU
+    simp only [leBytes_length, if_true, ofLE_leBytes 4 size (by omega)]
+  have s1 := skipCS_at data 88 _ _ hn d88
+  have b1 := blockTxs_spec T data encs hlen parsed hp _ [] (drop_step d88)
+  unfold Block.parse
+  simp only [e1, e2, e3, hhd, s1, bind, Except.bind, pure, Except.pure, t4, b1, Int.toNat_natCast]
 
 end BlockLemmas
